@@ -105,10 +105,16 @@ def generate(ctx):
         genome, feats, ref_row, rows = vcommon.random_setup(rng, mod3_segments=True)
         if not feats:
             continue
+        wins = windows(rng, len(genome))
+        if rng.random() < 0.35:
+            # an insertion before the first reference base (position 0) and windows that start at base 1: s <= p drops it
+            ref_row, rows = anno.make_msa(rng, genome, len(rows), lead=True)
+            e1 = rng.randint(1, len(genome))
+            wins = [(-1, -1), (1, -1), (-1, e1), (1, e1)]
         msa, recs = vcommon.build_msa(rng, ref_row, rows, refpos="first", style="plain")
         annob = anno.render_genbank(genome, feats, rng) if suffix == "gb" else anno.render_gff(genome, feats)
         append = rng.random() < 0.5
-        for (s, e) in windows(rng, len(genome)):
+        for (s, e) in wins:
             c = vcommon.variants_case(cid, msa, "REF", annob, suffix, {"kind": "variants", "nontrivial": (s, e) != (-1, -1), "group": (g, "var"),
                                                                         "role": (s, e, 0), "opts": {"start": s, "end": e}},
                                       start=s, end=e, append_snps=append,
